@@ -246,7 +246,7 @@ def cfg_succ_chain(ctx, b, bb, n=3):
 
 
 def run(ctx):
-    _run(ctx)
+    _run(ctx)        # R-C02-10: see below (the verifier half of C04 is a clause of soundness)
     from . import C08
     from .common import shared
     shared(ctx, C08.run, 'R-C08', 'R-C02-8')
